@@ -21,12 +21,14 @@ class Facts:
 
     def __init__(self) -> None:
         self.known: Dict[Tuple, Interval] = {}
+        self.polys: Dict[Tuple, Poly] = {}
         self.text: List[str] = []
 
     def assume(self, p: Poly, lo: float, hi: float, why: str = "") -> None:
         k = p.key()
         old = self.known.get(k, (-INF, INF))
         self.known[k] = (max(old[0], lo), min(old[1], hi))
+        self.polys[k] = p
         self.text.append(f"{show(p)} in [{lo}, {hi}]" + (f"  ({why})" if why else ""))
 
     def lookup(self, p: Poly) -> Optional[Interval]:
@@ -79,7 +81,7 @@ def atom_interval(a: Atom, facts: Facts) -> Interval:
     return (-INF, INF)
 
 
-def interval(p: Poly, facts: Facts) -> Interval:
+def _plain_interval(p: Poly, facts: Facts) -> Interval:
     f = facts.lookup(p)
     total: Interval = (0, 0)
     for m, c in p.terms.items():
@@ -91,6 +93,37 @@ def interval(p: Poly, facts: Facts) -> Interval:
         total = _add(total, iv)
     if f is not None:
         total = (max(total[0], f[0]), min(total[1], f[1]))
+    return total
+
+
+def interval(p: Poly, facts: Facts) -> Interval:
+    """Bounds of p: interval arithmetic over its terms, tightened by writing
+    p = r + sum(+-q_k) over up to three known facts q_k (a finite search over
+    sign combinations; each candidate is again plain interval arithmetic)."""
+    import itertools
+
+    total = _plain_interval(p, facts)
+    if p.const_value() is not None or not facts.polys:
+        return total
+    items = [(facts.polys[k_], facts.known[k_]) for k_ in facts.polys]
+    items = [(q, iv) for q, iv in items if q.const_value() is None][:8]
+    for size in (1, 2, 3):
+        for combo in itertools.combinations(range(len(items)), size):
+            for signs in itertools.product((1, -1), repeat=size):
+                r = p
+                lo_sum, hi_sum = 0.0, 0.0
+                for idx, sg in zip(combo, signs):
+                    q, iv = items[idx]
+                    r = r - q.scale(sg)
+                    if sg > 0:
+                        lo_sum, hi_sum = lo_sum + iv[0], hi_sum + iv[1]
+                    else:
+                        lo_sum, hi_sum = lo_sum - iv[1], hi_sum - iv[0]
+                # only worthwhile when the facts cancel something
+                if len(r.terms) >= len(p.terms) + size - 1 and size > 1:
+                    continue
+                ri = _plain_interval(r, facts)
+                total = (max(total[0], ri[0] + lo_sum), min(total[1], ri[1] + hi_sum))
     return total
 
 
